@@ -197,7 +197,7 @@ def frame_tokens(out):
             continue
         if ch == "/" and s[i:i + 2] == "/*":
             j, ok = _scan_comment(s, i)
-            put("comment", _flags(s[i:j], ok)); i = j
+            put("comment", _flags(s[i:j], ok) | (8 if s[i:i + 3] == "/*!" else 0)); i = j
             continue
         if ch in "\"'":
             j, ok = _scan_string(s, i)
